@@ -210,6 +210,10 @@ let () =
           if String.length obs < 3 || String.sub obs 0 3 <> "ok:" then "forwardable"
           else begin
             match spec_parse (bytes_of_hex (String.sub obs 3 (String.length obs - 3))) with
+            | Some (g, []) when ack && (match f.f_body with Settings _ -> true | _ -> false) ->
+              (* the acknowledgement: ACK set, no payload (6.5), same stream *)
+              if g.f_body = Settings [] && flag g.f_flags aCK && g.f_stream = f.f_stream then "same-view"
+              else Printf.sprintf "not-an-ack out=[%s]" (frame_str g)
             | Some (g, []) ->
               (match view_body f.f_flags f.f_body, g.f_body with
                | BSettings st, Settings items when not st.st_ack ->
